@@ -36,12 +36,13 @@ WATCHDOG_S = {"quick": 900, "thorough": 3400}
 SHARD_BUDGET_S = {"quick": 40, "thorough": 600}
 
 OPS = ("mul", "rmul", "add", "eq", "x", "y", "to_affine", "scale", "double", "neg", "mul_add", "pickle", "verify", "precompute", "precompute_lazy", "sign", "to_string", "mulS", "addGS",
-       "pickleS", "to_affineG", "scaleG", "xS", "yG", "pickle_vk", "mul_addQ", "verify2", "copy_vk", "deepcopy_sk", "to_affineQ2", "mul_add_rev", "negS", "addSG")
+       "pickleS", "to_affineG", "scaleG", "xS", "yG", "pickle_vk", "mul_addQ", "verify2", "copy_vk", "deepcopy_sk", "to_affineQ2", "mul_add_rev", "negS", "addSG", "sign_other_hash", "sign_default_hash", "verify_default_hash")
 
 
 DIRECTED = [("pickle", "to_affineG"), ("pickle", "scaleG"), ("pickleS", "to_affine"), ("pickleS", "scale"), ("pickle", "mul"), ("pickle", "mul_add"),
             ("pickle_vk", "precompute"), ("pickle_vk", "verify"), ("to_affineG", "x"), ("scaleG", "yG"), ("to_affine", "y"), ("scale", "xS"),
             ("mul", "rmul"), ("precompute_lazy", "verify"), ("eq", "scaleG"), ("addGS", "to_affine"), ("to_affineG", "to_affineG"), ("scale", "scale"),
+            ("sign_other_hash", "sign_default_hash"), ("sign_default_hash", "sign_other_hash"), ("sign_other_hash", "verify_default_hash"), ("precompute", "verify"), ("verify", "precompute"),
             ("mul_add", "mul_add_rev"), ("mul_add_rev", "mul_add"), ("negS", "scale"), ("scale", "negS"), ("addGS", "addSG"), ("mul_add", "mul_addQ"), ("verify", "verify2"), ("copy_vk", "sign"), ("deepcopy_sk", "verify"), ("copy_vk", "mul"), ("to_affine", "to_affineQ2"), ("to_affineQ2", "to_affineQ2")]
 
 
@@ -50,6 +51,7 @@ def monitored_codes():
     codes += S.codes_of(K.VerifyingKey, {"precompute", "verify", "verify_digest", "to_string", "_raw_encode", "_compressed_encode"})
     codes += S.codes_of(E.Public_key, {"verifies"})
     codes += S.codes_of(E.Private_key, {"sign"})
+    codes += S.codes_of(K.SigningKey, {"sign_deterministic", "sign_digest_deterministic", "sign_digest", "sign_number", "sign"})
     from ecdsa import numbertheory as NT
     codes += S.codes_of(NT, {"inverse_mod", "square_root_mod_prime", "jacobi"})       # helpers the point class calls: module-level state there is shared too
     return codes
@@ -86,6 +88,18 @@ class Scenario(object):
                 break
             retry += 1
         self.sig = sigs.ref_encode("string", rs[0], rs[1], n)
+        # the same key and message under another hash (explicit hashfunc argument next to the key's default)
+        self.hf2 = hashlib.sha512
+        dg2 = self.hf2(self.msg).digest()
+        e2 = ecdsa_ref.digest_to_e(dom, dg2, True)
+        retry = 0
+        while True:
+            k2 = rfc6979_ref.generate_k(n, self.d, self.hf2, dg2, retry)
+            rsx = ecdsa_ref.sign(dom, self.d, k2, e2)
+            if isinstance(rsx, tuple):
+                break
+            retry += 1
+        self.sig_hf2 = sigs.ref_encode("string", rsx[0], rsx[1], n)
         # a second key pair on the same curve (another "other" point for the generator's mul_add)
         self.d2 = rng.randrange(1, n)
         self.Qk2 = ecdsa_ref.pubkey(dom, self.d2)
@@ -120,6 +134,11 @@ class Scenario(object):
         sh["vk"] = sk.verifying_key
         sh["vk2"] = ecdsa.VerifyingKey.from_public_point(lib.mk_jac(self.cfp, self.Qk2, self.zS, n), self.curve, self.hf)      # unscaled point, as a recovered key holds
         sh["Q2"] = lib.mk_jac(self.cfp, self.PQ2, self.zQ2, n, False)
+        if getattr(self, "pre_precomputed", None) is None:
+            self.pre_precomputed = False
+        if self.pre_precomputed:
+            sh["vk"].precompute()
+            sh["vk"].verify(self.sig, self.msg, hashfunc=self.hf)         # the key's table exists and has been used
         if getattr(self, "warm_table", False):
             sh["G"] * 2          # the table exists before the threads start
         # age the curve object: whatever per-curve bookkeeping exists has seen `age` distinct queries before the threads start
@@ -158,6 +177,12 @@ class Scenario(object):
             return cv.add(cv.mul(arg, G), cv.mul(arg2, Q))
         if op == "mul_add_rev":
             return cv.add(cv.mul(arg, Sp), cv.mul(arg2, G))
+        if op == "sign_other_hash":
+            return self.sig_hf2
+        if op == "sign_default_hash":
+            return self.sig
+        if op == "verify_default_hash":
+            return True
         if op == "negS":
             return cv.neg(Sp)
         if op == "addSG":
@@ -237,6 +262,12 @@ def perform(sh, sc, op, arg, arg2):
         return aff(G.mul_add(arg, Q, arg2))
     if op == "mul_add_rev":          # the two shared points in the opposite roles
         return aff(Sp.mul_add(arg, G, arg2))
+    if op == "sign_other_hash":
+        return sh["sk"].sign_deterministic(sc.msg, hashfunc=sc.hf2)
+    if op == "sign_default_hash":
+        return sh["sk"].sign_deterministic(sc.msg)                  # the key's own default (sc.hf)
+    if op == "verify_default_hash":
+        return sh["vk"].verify(sc.sig, sc.msg)
     if op == "negS":
         return aff(-Sp)
     if op == "addSG":
@@ -284,7 +315,7 @@ def perform(sh, sc, op, arg, arg2):
     raise ValueError(op)
 
 
-OPCLS = {"mul_add_rev": "mul_add", "negS": "neg", "addSG": "add", "mul_addQ": "mul_add", "verify2": "verify", "copy_vk": "pickle", "deepcopy_sk": "pickle", "to_affineQ2": "to_affine", "mul": "mul", "rmul": "mul", "mulS": "mul", "add": "add", "addGS": "add", "precompute_lazy": "precompute", "pickleS": "pickle", "pickle_vk": "pickle",
+OPCLS = {"sign_other_hash": "sign", "sign_default_hash": "sign", "verify_default_hash": "verify", "mul_add_rev": "mul_add", "negS": "neg", "addSG": "add", "mul_addQ": "mul_add", "verify2": "verify", "copy_vk": "pickle", "deepcopy_sk": "pickle", "to_affineQ2": "to_affine", "mul": "mul", "rmul": "mul", "mulS": "mul", "add": "add", "addGS": "add", "precompute_lazy": "precompute", "pickleS": "pickle", "pickle_vk": "pickle",
          "to_affineG": "to_affine", "scaleG": "scale", "xS": "x", "yG": "y"}
 
 
@@ -513,6 +544,7 @@ def run(ctx, name, kind, **kw):
                 curve, dom = toy_pick(rng)
                 sc = Scenario(rng, curve, dom, 2)
                 sc.age = age
+                sc.pre_precomputed = (a, b) in (("precompute", "verify"), ("verify", "precompute")) or rng.random() < 0.2
                 if rng.random() < 0.5:
                     a, b = b, a
                 sc.plans[0] = [(a, sc.plans[0][0][1], sc.plans[0][0][2])]
@@ -557,6 +589,7 @@ def run(ctx, name, kind, **kw):
                 curve, dom = toy_pick(rng)
                 sc = Scenario(rng, curve, dom, 2)
                 a0, a1 = sc.plans[0][0][1], sc.plans[1][0][1]
+                sc.pre_precomputed = rng.random() < 0.5
                 sc.plans[0] = [(rng.choice(("precompute", "precompute_lazy")), a0, 0)]
                 sc.plans[1] = [(rng.choice(("verify", "verify", "to_string", "sign", "precompute_lazy", "verify", "pickle_vk", "copy_vk", "deepcopy_sk", "pickle_vk")), a1, 0)]
                 if rng.random() < 0.5:
